@@ -31,7 +31,13 @@ def prime():
 def gen(rng, idx, tier):
     pad = rng.choice(["rand", "rand", 0xFF, None])
     ev = bustraffic.history(rng, pad=pad, all_defs=rng.random() < 0.6, multi_def_bias=True, repeat_seq=rng.random() < 0.4)
-    return {"events": ev}
+    # one more listener is a single decoder object that receives every message through a format chosen per message
+    # (frame-level or pre-assembled): what a format carries must not depend on what the decoder saw before
+    mix = {}
+    for e in ev:
+        if e["m"] not in mix:
+            mix[e["m"]] = rng.choice(bus.FRAME_FORMATS + bus.WHOLE_FORMATS + ["ebyte", "actisense"])
+    return {"events": ev, "mix": {str(k): v for k, v in mix.items()}}
 
 
 def execute(plan):
@@ -41,6 +47,8 @@ def execute(plan):
     wf = bus.WHOLE_FORMATS
     fl = {f: NMEA2000Decoder() for f in ff}
     wl = {f: NMEA2000Decoder() for f in wf}
+    mixed = NMEA2000Decoder()
+    mix = plan.get("mix") or {}
     v = []
     log = []
     st = {"frames": 0, "fast_completed": 0, "single_decoded": 0, "whole_compared": 0}
@@ -65,6 +73,26 @@ def execute(plan):
             break
         is_msg = isinstance(base, tuple) and base[:1] != ("exc",)
         last = e.get("i", 0) == e.get("n", 1) - 1
+        mf = mix.get(str(e.get("m")))
+        if mf in ff:
+            m, exc = bus.feed_frame(mixed, mf, e["f"])
+            r = ("exc", type(exc).__name__) if exc is not None else msgs.key(m, iso=True)
+            st["mixed_frame_level"] = st.get("mixed_frame_level", 0) + 1
+            if r != base:
+                v.append(viol("C07.disagree.ebyte.mixed", evno, "a decoder that receives each message through a different format "
+                              "(this one frame-wise as %s) disagrees with a %s-only decoder at frame %d of %d of PGN %d src %d: %s vs %s" %
+                              (mf, "EByte", e.get("i", 0), e.get("n", 1), e["f"][0], e["f"][1], _b(r), _b(base))))
+                break
+        elif mf in wf and last and e.get("whole") is not None and seen.get(e.get("m")) == list(range(e.get("n", 1))):
+            pgn, src, dst, prio, _ = e["f"]
+            m, exc = bus.feed_whole(mixed, mf, [pgn, src, dst, prio, e["whole"]])
+            r = ("exc", type(exc).__name__) if exc is not None else msgs.key(m, iso=True)
+            st["mixed_pre_assembled"] = st.get("mixed_pre_assembled", 0) + 1
+            if r != base and not (r is not None and r[:1] == ("exc",) and base is not None and base[:1] == ("exc",)):
+                v.append(viol("C07.disagree.ebyte.mixed", evno, "a decoder that receives each message through a different format "
+                              "(this one pre-assembled as %s) disagrees with frame-wise delivery of PGN %d src %d (%d-byte payload): %s vs %s" %
+                              (mf, pgn, src, len(e["whole"]) // 2, _b(r), _b(base))))
+                break
         if is_msg and e["k"] == "fast" and not last:
             v.append(viol("C07.early.ebyte", evno, "frame-level listeners returned a message at frame %d of %d" % (e["i"], e["n"])))
             break
@@ -88,6 +116,14 @@ def execute(plan):
     h = hashlib.sha256(repr(([e["f"] for e in plan["events"]], log)).encode()).hexdigest()
     return {"violations": v, "digest": h, "stats": st,
             "nontrivial": st["fast_completed"] > 0 and st["single_decoded"] > 0, "vtime": 0.0}
+
+
+def _b(r):
+    if r is None:
+        return "nothing"
+    if r[:1] == ("exc",):
+        return "error %s" % r[1]
+    return "message %s/%s" % (r[0], r[1])
 
 
 def describe(plan):
